@@ -47,6 +47,9 @@ def server_alphabet(rng):
     out["nak"] = lambda i: rpcfmt.finalize(_bind.BindNak(header=r.PDUHeader(5, 0, r.PacketType.BIND_NAK, r.PacketFlags(3), r.DataRep(), 0, 0, 1), sec_trailer=None, reject_reason=4, versions=[(5, 0)]))
     out["fault"] = lambda i: rpcfmt.finalize(_pdu.Fault(header=r.PDUHeader(5, 0, r.PacketType.FAULT, r.PacketFlags(3), r.DataRep(), 0, 0, 1), sec_trailer=None, alloc_hint=0, context_id=0, cancel_count=0, status=5,
                                                         flags=_pdu.FaultFlags(0), stub_data=b""))
+    # a fault that says "the call did not execute" (PFC_DID_NOT_EXECUTE, 0x20): still a rejection of the bind / alter_context it answers
+    out["faultDNE"] = lambda i: rpcfmt.finalize(_pdu.Fault(header=r.PDUHeader(5, 0, r.PacketType.FAULT, r.PacketFlags(3 | 0x20), r.DataRep(), 0, 0, 1), sec_trailer=None, alloc_hint=0, context_id=0,
+                                                           cancel_count=0, status=0x1C010003, flags=_pdu.FaultFlags(0), stub_data=b""))
     out["resp"] = lambda i: rpcfmt.finalize(_request.Response(header=r.PDUHeader(5, 0, r.PacketType.RESPONSE, r.PacketFlags(3), r.DataRep(), 0, 0, 1), sec_trailer=None, alloc_hint=0, context_id=0, cancel_count=0, stub_data=b"x"))
     out["wrongack"] = lambda i: ack([A, A], 1, b"w")(1 if i == 0 else 0)      # alter_context_resp to a bind / bind_ack to an alter_context
     out["eof"] = lambda i: None
@@ -181,7 +184,7 @@ def run(ctx):
     alpha = server_alphabet(rng)
     names = sorted(alpha)
     cases = []
-    core = ["ackAA1t", "ackAA0t", "ackAA1n", "ackAR1t", "ackRA0t", "ackN1t", "ackE1t", "nak", "fault", "resp", "eof", "wrongack"]
+    core = ["ackAA1t", "ackAA0t", "ackAA1n", "ackAR1t", "ackRA0t", "ackN1t", "ackE1t", "nak", "fault", "faultDNE", "resp", "eof", "wrongack"]
     scripts = [[(b"c1", True)], [(b"c1", False), (b"c2", True)], [(b"c1", False), (b"c2", False), (b"c3", True)], [(b"c1", False), (b"c2", False), (b"", True)],
                [(b"c1", False), (b"", False)], [(b"c1", False), (b"c2", False), (b"c3", False), (b"c4", True)], [(b"c1", False), (b"c2", False)], [(b"", True)],
                # tokens of a different length on every leg (NTLM / Kerberos tokens are): each PDU must be framed for ITS token
@@ -261,7 +264,7 @@ def run(ctx):
         for i, s in enumerate(srv[:len(sent)]):
             # an alter_context_resp answering a bind carries the same fields as a bind_ack and is processed as one
             # (subclass); only the reverse — a bind_ack answering an alter_context — is an unexpected type
-            if (s in ("nak", "fault", "resp", "eof") or (s == "wrongack" and i > 0)) and not out.startswith("err "):
+            if (s in ("nak", "fault", "faultDNE", "resp", "eof") or (s == "wrongack" and i > 0)) and not out.startswith("err "):
                 ctx.violation("a rejection / unexpected reply during binding is ignored", inp, out[:80], "error")
                 break
         if out.startswith("ok") and use_auth:
